@@ -9,6 +9,14 @@ pub mod c06;
 pub mod c07;
 pub mod c08;
 pub mod c09;
+pub mod c10;
+pub mod c11;
+pub mod c12;
+pub mod c13;
+pub mod c14;
+pub mod c15;
+pub mod c16;
+pub mod c17;
 pub mod util;
 
 pub fn run(ctx: &mut Ctx) -> Result<(), String> {
@@ -22,6 +30,14 @@ pub fn run(ctx: &mut Ctx) -> Result<(), String> {
         "C07" => c07::run(ctx),
         "C08" => c08::run(ctx),
         "C09" => c09::run(ctx),
+        "C10" => c10::run(ctx),
+        "C11" => c11::run(ctx),
+        "C12" => c12::run(ctx),
+        "C13" => c13::run(ctx),
+        "C14" => c14::run(ctx),
+        "C15" => c15::run(ctx),
+        "C16" => c16::run(ctx),
+        "C17" => c17::run(ctx),
         other => return Err(format!("unknown property {other}")),
     }
     Ok(())
@@ -40,6 +56,14 @@ pub fn rule(prop: &str) -> &'static str {
         "C07" => c07::RULE,
         "C08" => c08::RULE,
         "C09" => c09::RULE,
+        "C10" => c10::RULE,
+        "C11" => c11::RULE,
+        "C12" => c12::RULE,
+        "C13" => c13::RULE,
+        "C14" => c14::RULE,
+        "C15" => c15::RULE,
+        "C16" => c16::RULE,
+        "C17" => c17::RULE,
         _ => "",
     }
 }
